@@ -81,6 +81,10 @@ func (comp *Compiler) Compile(stmts []*gripql.GraphStatement, opts *gdbi.Compile
 		return cmpl.Compile(stmts, opts)
 	}
 
+	if err := core.Validate(stmts, opts); err != nil {
+		return &Pipeline{}, fmt.Errorf("invalid statments: %s", err)
+	}
+
 	procs := []gdbi.Processor{}
 	query := mongo.Pipeline{}
 	startCollection := ""
@@ -534,6 +538,9 @@ func (comp *Compiler) Compile(stmts []*gripql.GraphStatement, opts *gdbi.Compile
 				return &Pipeline{}, fmt.Errorf(`"hasLabel" statement is only valid for edge or vertex types not: %s`, lastType.String())
 			}
 			labels := protoutil.AsStringList(stmt.HasLabel)
+			if len(labels) == 0 {
+				return &Pipeline{}, fmt.Errorf(`no labels provided to "HasLabel" statement`)
+			}
 			ilabels := make([]interface{}, len(labels))
 			for i, v := range labels {
 				ilabels[i] = v
@@ -548,6 +555,9 @@ func (comp *Compiler) Compile(stmts []*gripql.GraphStatement, opts *gdbi.Compile
 				return &Pipeline{}, fmt.Errorf(`"hasId" statement is only valid for edge or vertex types not: %s`, lastType.String())
 			}
 			ids := protoutil.AsStringList(stmt.HasId)
+			if len(ids) == 0 {
+				return &Pipeline{}, fmt.Errorf(`no ids provided to "HasId" statement`)
+			}
 			iids := make([]interface{}, len(ids))
 			for i, v := range ids {
 				iids[i] = v
@@ -563,6 +573,9 @@ func (comp *Compiler) Compile(stmts []*gripql.GraphStatement, opts *gdbi.Compile
 			}
 			hasKeys := bson.M{}
 			keys := protoutil.AsStringList(stmt.HasKey)
+			if len(keys) == 0 {
+				return &Pipeline{}, fmt.Errorf(`no keys provided to "HasKey" statement`)
+			}
 			for _, key := range keys {
 				key = jsonpath.GetJSONPath(key)
 				key = strings.TrimPrefix(key, "$.")
@@ -650,6 +663,9 @@ func (comp *Compiler) Compile(stmts []*gripql.GraphStatement, opts *gdbi.Compile
 			if lastType == gdbi.NoData {
 				return &Pipeline{}, fmt.Errorf(`"as" statement is not valid at the beginning of a traversal`)
 			}
+			if lastType != gdbi.VertexData && lastType != gdbi.EdgeData {
+				return &Pipeline{}, fmt.Errorf(`"as" statement is only valid for edge or vertex types not: %s`, lastType.String())
+			}
 			if stmt.As == "" {
 				return &Pipeline{}, fmt.Errorf(`"as" statement cannot have an empty name`)
 			}
@@ -665,6 +681,11 @@ func (comp *Compiler) Compile(stmts []*gripql.GraphStatement, opts *gdbi.Compile
 		case *gripql.GraphStatement_Select:
 			if lastType != gdbi.VertexData && lastType != gdbi.EdgeData {
 				return &Pipeline{}, fmt.Errorf(`"select" statement is only valid for edge or vertex types not: %s`, lastType.String())
+			}
+			for _, mark := range stmt.Select.Marks {
+				if _, ok := markTypes[mark]; !ok {
+					return &Pipeline{}, fmt.Errorf(`"select" statement references mark '%s' that has not been defined`, mark)
+				}
 			}
 			switch len(stmt.Select.Marks) {
 			case 0:
@@ -718,6 +739,9 @@ func (comp *Compiler) Compile(stmts []*gripql.GraphStatement, opts *gdbi.Compile
 			lastType = gdbi.PathData
 
 		case *gripql.GraphStatement_Unwind:
+			if lastType != gdbi.VertexData && lastType != gdbi.EdgeData {
+				return &Pipeline{}, fmt.Errorf(`"unwind" statement is only valid for edge or vertex types not: %s`, lastType.String())
+			}
 			f := strings.TrimPrefix(stmt.Unwind, "$.")
 			query = append(query,
 				bson.D{primitive.E{Key: "$unwind", Value: "$data." + f}})
